@@ -253,13 +253,31 @@ Qed.
 
 (** * D8 (C16): types without a path getter yield nothing, and never fail *)
 
+Lemma group_by_getter_none qs :
+  (forall q cfg, In q qs -> getter_for Rt (s_type q) false <> GPaths cfg) ->
+  group_by_getter Rt qs = [].
+Proof.
+  intros Hg. unfold group_by_getter.
+  assert (G : forall acc, fold_left (fun acc q => match getter_for Rt (s_type q) false with
+                                                  | GPaths cfg => add_to_getter_group cfg q acc
+                                                  | _ => acc end) qs acc = acc).
+  { induction qs as [|q r IH]; intros acc; cbn [fold_left]; [reflexivity|].
+    pose proof (Hg q) as Hq.
+    destruct (getter_for Rt (s_type q) false) as [cfg| |].
+    - exfalso. apply (Hq cfg); [left; reflexivity | reflexivity].
+    - apply IH. intros q' cfg' Hin. apply Hg. right. exact Hin.
+    - apply IH. intros q' cfg' Hin. apply Hg. right. exact Hin. }
+  apply G.
+Qed.
+
 Theorem get_all_no_getter F search attrs enc qs :
   unfold_search Ld search false false = Ok qs ->
   (forall q, In q qs -> getter_for Rt (s_type q) false = GNone) ->
   get_all Ld Rt F search attrs enc = Ok [].
 Proof using Hload Hwf.
   intros Hu Hg. unfold get_all. rewrite Hu. cbn [bind].
-  apply concat_mapM_nil. intros q Hq. rewrite (Hg q Hq). reflexivity.
+  rewrite group_by_getter_none; [reflexivity|].
+  intros q cfg Hq. rewrite (Hg q Hq). discriminate.
 Qed.
 
 (* slightly more general: it is enough that no type is routed to a path getter *)
@@ -269,9 +287,8 @@ Theorem get_all_no_path_getter F search attrs enc qs :
   get_all Ld Rt F search attrs enc = Ok [].
 Proof using Hload Hwf.
   intros Hu Hg. unfold get_all. rewrite Hu. cbn [bind].
-  apply concat_mapM_nil. intros q Hq. specialize (Hg q).
-  destruct (getter_for Rt (s_type q) false) as [cfg| |]; try reflexivity.
-  exfalso. apply (Hg cfg Hq). reflexivity.
+  rewrite group_by_getter_none; [reflexivity|].
+  intros q cfg Hq. exact (Hg q cfg Hq).
 Qed.
 
 End Proofs.
